@@ -5,7 +5,7 @@
    Content-Length.  What it cannot exhibit - memory errors inside libstdc++/boost - is covered by
    the ASan+UBSan run of the same streams (supporting, see evidence). *)
 From Via Require Import M_Char M_Parse M_Receive P_Parse P_C05 P_Term P_TermC.
-From Via Require Import M_Imp M_Loop Gen_Parse P_Imp P_Loop.
+From Via Require Import M_Imp M_Loop M_Hdr M_Msg M_Chunk Gen_Parse P_Imp P_Loop P_Hdr P_Msg P_Frag P_C06b P_Chunk.
 Local Open Scope N_scope.
 
 (* one call, from any state satisfying the invariant *)
@@ -82,3 +82,16 @@ Proof.
   - rewrite (ck_parse_is_the_source L x buf fuel Hf). discriminate.
 Qed.
 Print Assumptions C05_source_loops_finish_within_the_input.
+
+(* rx_chunk::parse, the one place in the receivers with pointer and ptrdiff_t arithmetic: run on any chunk the receiver
+   can reach, any input, the TRANSLATED source returns a value - the subtraction of the two sizes stays in the range of
+   std::ptrdiff_t, `iter + data_required` stays within [iter, end], and no byte is read or skipped at `end` (each of
+   these would be `None` in M_Chunk.cexec). *)
+Theorem C05_chunk_source_is_defined : forall L k buf fuel,
+  rc_inv L k -> hd_ok (rc_trailers k) -> small (ck_max (rc_hdr k)) -> (length buf + 2 <= fuel)%nat ->
+  crun (ck_lim L) (fl_lim L) (hd_lim L) (kc_of L) (hd_code_of L) fuel (rc_src L) (rc_store k) buf <> None.
+Proof. intros L k buf fuel Hi Ho Hm Hf. rewrite (rc_parse_is_the_source L k buf fuel Hi Ho Hm Hf). discriminate. Qed.
+Example C05_chunk_source_premises : let L := mk_limits 8190 8 100 65534 1024 8 65534 65534 false in
+  rc_inv L (rc_init 1048576) /\ hd_ok (rc_trailers (rc_init 1048576)) /\ small (ck_max (rc_hdr (rc_init 1048576))).
+Proof. split; [apply rc_inv_init | split; [apply fl_ok_init | reflexivity]]. Qed.
+Print Assumptions C05_chunk_source_is_defined.
